@@ -383,6 +383,31 @@ def s10(ctx, rep):
             "outside the min/max switch: the cutoff is the mirrored entry for mode 'max'")
 
 
+def s11(ctx, rep):
+    """found thin by the generic mutation audit"""
+    from . import c15
+    P = ctx.P
+    r = P.cls("Rung")
+    c = r.methods["__contains__"]
+    rv = returns_of(c)
+    ok = len(rv) == 1 and isinstance(rv[0].value, ast.Compare) and len(rv[0].value.ops) == 1 and isinstance(rv[0].value.ops[0], ast.In) \
+        and U(rv[0].value.comparators[0]) == "self._trial_ids"
+    rep.put(ok, "S2", "agreement", "Rung.__contains__: membership in the id set the entries are recorded in", c, rv[0] if rv else None, "",
+            "`trial in rung` does not mean 'has an entry': a trial is entered twice, or never")
+    # both mode switches of Rung.quantile are mirror images AND attached to the right modes
+    q = r.methods["quantile"]
+    n = 0
+    for f_, node in c15.sites(ctx, [q.module.relpath]):
+        if f_ is not q:
+            continue
+        shape, ok_, detail = c15.classify(ctx, f_, node)
+        n += 1
+        rep.put(bool(ok_), "S3", "parity", f"Rung.quantile: {shape} over the mode", q, node, detail,
+                f"{detail}: the cutoff is taken from the wrong end of the best-first entry list for one of the modes")
+    if n < 2:
+        raise AnchorError(f"Rung.quantile: {n} mode-dependent sites (2 confirmed: q / 1-q and the window)")
+
+
 def run(ctx, rep, tier="quick"):
     s1(ctx, rep)
     s2(ctx, rep)
@@ -394,3 +419,4 @@ def run(ctx, rep, tier="quick"):
     s8(ctx, rep)
     s9(ctx, rep)
     s10(ctx, rep)
+    s11(ctx, rep)
